@@ -228,6 +228,7 @@ class Sim:
         self.total_screen = 0
         self.psi_init_hook = None
         self.seed_solution = None
+        self.options_from = None
         self.keep_output = False
         self.stub_state = {}
 
@@ -734,7 +735,15 @@ class Sim:
             if out.get("absolute", True):
                 out_file = os.path.join(self.workdir, out_file)
         late = scn.get("options_late")
-        if late:
+        if self.options_from is not None:
+            # the caller re-uses (and mutates in place) the options instance of an earlier run
+            options = self.options_from
+            fresh = B.build_options(scn["options"], out_file)
+            import dataclasses as _dc
+
+            for f_ in _dc.fields(fresh):
+                setattr(options, f_.name, getattr(fresh, f_.name))
+        elif late:
             # option life cycle: the options object passed validation, was then changed in place
             first = dict(scn["options"])
             for k in late["updates"]:
@@ -869,10 +878,11 @@ def classify_discard(h):
     return None
 
 
-def run_scenario(scn, checkers=(), trace=None, root=None, mesh_from=None, psi_init_hook=None, seed_solution=None):
+def run_scenario(scn, checkers=(), trace=None, root=None, mesh_from=None, psi_init_hook=None, seed_solution=None, options_from=None):
     sim = Sim(scn, checkers=checkers, trace=trace, root=root, mesh_from=mesh_from)
     sim.psi_init_hook = psi_init_hook
     sim.seed_solution = seed_solution
+    sim.options_from = options_from
     h = sim.run()
     why = classify_discard(h)
     if why is not None:
